@@ -47,6 +47,8 @@ structure St where
 structure Cfg where
   prog : Program
   callLimit : Nat := 100
+  /-- singleton values provided by the host (`Executor.LoadSingleton` answering "found") -/
+  hostSingletons : HostSingletons := []
   deriving Inhabited
 
 abbrev M := ExceptT Ctl (StateM St)
@@ -286,9 +288,9 @@ def wrapIndex (i : I64) (len : Nat) : Option Nat :=
   let k := if k < 0 then k + len else k
   if k < 0 ∨ k ≥ len then none else some k.toNat
 
+mutual
 /-- Zero value of a type (`value.ZeroValue`): used for singletons the host does not provide. -/
-partial def zeroValue (t : Ty) : M Val :=
-  match t with
+def zeroValue : Ty → M Val
   | .null => pure .null
   | .int => pure (.int 0)
   | .float => pure (.float 0.0)
@@ -298,10 +300,45 @@ partial def zeroValue (t : Ty) : M Val :=
   | .list _ => alloc (.list [])
   | .anyobj => alloc (.anyobj [])
   | .opt _ => pure (.opt none)
-  | .obj fs => do
-    let vals ← fs.mapM fun (k, ft) => do pure (k, ← zeroValue ft)
-    alloc (.obj vals)
+  | .obj fs => do alloc (.obj (← zeroFields fs))
   | _ => throwCtl (.unsupported "zero value of this type")
+def zeroFields : List (String × Ty) → M (List (String × Val))
+  | [] => pure []
+  | (k, ft) :: rest => do
+    let v ← zeroValue ft
+    let vs ← zeroFields rest
+    pure ((k, v) :: vs)
+end
+
+mutual
+/-- Place a value handed over by the host in the heap: what the program sees of the result of
+`LoadSingleton`. -/
+def hostToVal : HostVal → M Val
+  | .null => pure .null
+  | .int v => pure (.int (I64.ofInt v))
+  | .float b => pure (.float (floatOfBits b))
+  | .bool b => pure (.bool b)
+  | .str s => pure (.str s)
+  | .none => pure (.opt none)
+  | .some v => do pure (.opt (some (← hostToVal v)))
+  | .range a b incl => pure (.range (I64.ofInt a) (I64.ofInt b) incl)
+  | .list xs => do alloc (.list (← hostToVals xs))
+  | .obj fs => do alloc (.obj (← hostToFields fs))
+  | .anyobj fs => do alloc (.anyobj (← hostToFields fs))
+def hostToVals : List HostVal → M (List Val)
+  | [] => pure []
+  | x :: xs => do pure ((← hostToVal x) :: (← hostToVals xs))
+def hostToFields : List (String × HostVal) → M (List (String × Val))
+  | [] => pure []
+  | (k, x) :: xs => do pure ((k, ← hostToVal x) :: (← hostToFields xs))
+end
+
+/-- The value a singleton starts with (`instantiateSingleton`, `compileSingletonInit` +
+`Opcode_Load_Singleton`): the host's value when it provides one, else the zero value of the type. -/
+def singletonInit (host : HostSingletons) (name : String) (t : Ty) : M Val :=
+  match host.lookup name with
+  | some hv => hostToVal hv
+  | none => zeroValue t
 
 /-- Iteration order of a range (`ValueRange.iterNext`). -/
 def rangeElems (a b : I64) (incl : Bool) : List I64 :=
@@ -831,14 +868,15 @@ def outcomeOf : Except Ctl Val × St → Outcome
   | (.error (.ret _), s) => .ok s.out s.trig
   | (.error .brk, _) | (.error .cont, _) => .unsupported "loop exit at top level"
 
-/-- Initialise the globals of every module (singletons from their zero values — the testing
-host provides none), then run `main` of the entry module. -/
+/-- Initialise the globals of every module (a singleton from the value the host provides for
+its name, `cfg.hostSingletons`, else from the zero value of its type), then run `main` of the
+entry module. -/
 def runProgram (cfg : Cfg) (fuel : Nat) (entry : String := "main") : Outcome :=
   let init : M Unit := do
     for m in cfg.prog do
       modify fun s => { s with module := m.name, scopes := [[]] }
       for (name, t) in m.singletons do
-        let v ← zeroValue t
+        let v ← singletonInit cfg.hostSingletons name t
         modify fun s => { s with globals := s.globals ++ [((m.name, name), v)] }
       for g in m.globals do
         match g with
